@@ -1,17 +1,21 @@
 #!/bin/bash
-# tools/seedcheck.sh <property id> <worktree dir> [more check ids...]
-# confirms a seeded change (tests pass, demo fails with / passes without) and runs the checks against it
-id=$1; wt=$2; shift 2; checks="$id $@"
-out=/verif/seeded/$id; mkdir -p $out
+# tools/seedcheck.sh <seed name> <dir with seed/patch.diff, seed/demo.py> <check ids...>
+# Confirms a seeded change on a scratch copy of /repo with the patch applied (tests pass, demo fails with / passes
+# without) and runs the given checks against it.
+name=$1; wt=$2; shift 2; checks="$@"
+out=/verif/seeded/$name; mkdir -p $out
 cp $wt/seed/patch.diff $wt/seed/demo.py $out/ 2>/dev/null; cp $wt/seed/notes.md $out/ 2>/dev/null
-echo "== $id: test suite with the change"
-( cd $wt && /venv/bin/python -m pytest -q -p no:cacheprovider python 2>&1 | tail -1 ) | tee $out/.tests
+sc=/tmp/mut/seed_$name; rm -rf $sc; mkdir -p $sc; cp -r /repo/python $sc/python; mkdir -p $sc/docs; cp -r /repo/docs/spec $sc/docs/
+( cd $sc && patch -p1 -s < $out/patch.diff ) || echo "PATCH FAILED"
+rm -f $out/.checks
+echo "== $name: test suite with the change"
+( cd $sc && /venv/bin/python -m pytest -q -p no:cacheprovider python 2>&1 | tail -1 ) | tee $out/.tests
 echo "== demo with the change (must fail)"
-( cd $wt && PYTHONPATH=$wt/python timeout 120 /venv/bin/python seed/demo.py > $out/.demo_with 2>&1; echo "exit=$?" ) | tee $out/.demo_with_rc
+( cd $sc && PYTHONPATH=$sc/python timeout 120 /venv/bin/python $out/demo.py > $out/.demo_with 2>&1; echo "exit=$?" ) | tee $out/.demo_with_rc
 echo "== demo on /repo (must pass)"
-( cd /repo && PYTHONPATH=/repo/python timeout 120 /venv/bin/python $wt/seed/demo.py > $out/.demo_without 2>&1; echo "exit=$?" ) | tee $out/.demo_without_rc
-rm -rf /tmp/mut/seed_$id; mkdir -p /tmp/mut/seed_$id; cp -r $wt/python /tmp/mut/seed_$id/python; mkdir -p /tmp/mut/seed_$id/docs; cp -r $wt/docs/spec /tmp/mut/seed_$id/docs/ 2>/dev/null
-for c in $checks; do [ -f /verif/harness/$c.py ] || continue;
-  SX_REPO=/tmp/mut/seed_$id timeout 2400 /verif/check $c > $out/.check_$c.out 2>&1; echo "== check $c against the change: exit=$?" | tee -a $out/.checks
-  grep -A1 "^VIOLATION" $out/.check_$c.out | head -2 | cut -c1-400
+( cd /repo && PYTHONPATH=/repo/python timeout 120 /venv/bin/python $out/demo.py > $out/.demo_without 2>&1; echo "exit=$?" ) | tee $out/.demo_without_rc
+for c in $checks; do
+  [ -f /verif/harness/$c.py ] || continue
+  SX_REPO=$sc timeout 3000 /verif/check $c > $out/.check_$c.out 2>&1; echo "== check $c against the change: exit=$?" | tee -a $out/.checks
+  grep -A1 "^VIOLATION" $out/.check_$c.out | head -2 | cut -c1-300
 done
